@@ -170,6 +170,7 @@ func (c CounterStyle) renderValue(counterValue int, counter *CounterStyleDescrip
 		negativePrefix, negativeSuffix string
 		useNegative                    bool
 	)
+	signedValue := counterValue // the fallback styles get the original value
 	isNegative := counterValue < 0
 	if isNegative {
 		vs := counter.Negative
@@ -191,38 +192,38 @@ func (c CounterStyle) renderValue(counterValue int, counter *CounterStyleDescrip
 	case "cyclic":
 		initial, ok = repeating(counter.Symbols, counterValue)
 		if !ok {
-			return c.RenderValue(counterValue, "decimal")
+			return c.RenderValue(signedValue, "decimal")
 		}
 	case "fixed":
 		if len(counter.Symbols) == 0 {
-			return c.RenderValue(counterValue, "decimal")
+			return c.RenderValue(signedValue, "decimal")
 		}
 		initial, ok = nonRepeating(counter.Symbols, fixedNumber, counterValue)
 		if !ok {
-			return c.renderValue(counterValue, c.resolveCounter(counter.fallback(), previousTypes), previousTypes)
+			return c.renderValue(signedValue, c.resolveCounter(counter.fallback(), previousTypes), previousTypes)
 		}
 	case "symbolic":
 		initial, ok = symbolic(counter.Symbols, counterValue)
 		if !ok {
-			return c.RenderValue(counterValue, "decimal")
+			return c.RenderValue(signedValue, "decimal")
 		}
 	case "alphabetic":
 		initial, ok = alphabetic(counter.Symbols, counterValue)
 		if !ok {
-			return c.RenderValue(counterValue, "decimal")
+			return c.RenderValue(signedValue, "decimal")
 		}
 	case "numeric":
 		initial, ok = numeric(counter.Symbols, counterValue)
 		if !ok {
-			return c.RenderValue(counterValue, "decimal")
+			return c.RenderValue(signedValue, "decimal")
 		}
 	case "additive":
 		if len(counter.AdditiveSymbols) == 0 {
-			return c.RenderValue(counterValue, "decimal")
+			return c.RenderValue(signedValue, "decimal")
 		}
 		initial, ok = additive(counter.AdditiveSymbols, counterValue)
 		if !ok {
-			return c.renderValue(counterValue, c.resolveCounter(counter.fallback(), previousTypes), previousTypes)
+			return c.renderValue(signedValue, c.resolveCounter(counter.fallback(), previousTypes), previousTypes)
 		}
 	}
 
